@@ -154,6 +154,50 @@ def gen_lean(units_path, mod):
     return None if rc == 0 else out
 
 
+# ------------------------------------------------------------------ T2: layout table (C16)
+N_LAYOUT_CONFIGS = 13
+
+
+def layout_rows():
+    """run the layout probe against REPO for every configuration and regenerate Gen/C16rows.lean.
+    returns (rows_path, error or None, n_rows)"""
+    rows = os.path.join(CACHE, 'C16.rows')
+    rc, out = sh([sys.executable, os.path.join(VERIF, 'extract', 'layout_probe.py'), REPO, rows, os.path.join(CACHE, 'layout'), glm_tree_hash()], timeout=1800)
+    err = None if rc == 0 else ('layout probe failed: ' + out[-800:])
+    items, fails = [], 0
+    if os.path.exists(rows):
+        for l in open(rows):
+            p = l.split()
+            if p and p[0] == 'ROW':
+                i = p.index('|'); n = p[1:i]; offs = p[i + 1:]
+                if len(n) != 15: continue
+                cfg, kind, c, r, ts, ta, isf, al, q, so, ao, vp, ln, lt, aux = n
+                items.append('  ⟨%s, %s, %s, %s, %s, %s, %s, %s, %s, %s, %s, %s, %s, %s, %s, [%s]⟩' % (
+                    cfg, kind, c, r, ts, ta, 'true' if isf == '1' else 'false', 'true' if al == '1' else 'false', q, so, ao, vp, ln, lt, aux, ', '.join(offs)))
+            elif p and p[0] == 'FAIL': fails += 1
+    # one generated module per configuration, so that lake checks the table in parallel
+    bycfg = {}
+    for it in items:
+        c = int(it.strip()[1:].split(',')[0]); bycfg.setdefault(c, []).append(it)
+    gdir = os.path.join(LEAN, 'GlmVerif', 'Gen', 'C16'); os.makedirs(gdir, exist_ok=True)
+    def put(dst, text):
+        try:
+            if open(dst).read() == text: return
+        except FileNotFoundError: pass
+        open(dst, 'w').write(text)
+    for c in range(N_LAYOUT_CONFIGS):
+        text = '\n'.join(['-- GENERATED from the layout probe output (extract/layout_probe.py run against /repo) — do not edit',
+                          'import GlmVerif.Core.Layout', 'set_option maxRecDepth 100000', 'namespace Glm.Gen.C16', 'open Glm.Layout',
+                          'def rows_%d : List Row := [' % c, ',\n'.join(bycfg.get(c, [])), ']', 'end Glm.Gen.C16']) + '\n'
+        put(os.path.join(gdir, 'rows_%d.lean' % c), text)
+    text = '\n'.join(['-- GENERATED — do not edit'] + ['import GlmVerif.Gen.C16.rows_%d' % c for c in range(N_LAYOUT_CONFIGS)] +
+                      ['namespace Glm.Gen.C16', 'open Glm.Layout',
+                       'def rows : List Row := ' + ' ++ '.join('rows_%d' % c for c in range(N_LAYOUT_CONFIGS)),
+                       'def probeFailures : Nat := %d' % fails, 'end Glm.Gen.C16']) + '\n'
+    put(os.path.join(LEAN, 'GlmVerif', 'Gen', 'C16rows.lean'), text)
+    return rows, err, len(items)
+
+
 # ------------------------------------------------------------------ Lean side
 def lake_build(targets, timeout=3000):
     with LakeLock():
